@@ -59,7 +59,8 @@ def cases(draw, tier):
             "heap": draw(st.sampled_from([1, 10, 1000, 1000, 10 ** 9 if kind in ("walk", "edit1", "spaced")
                                           else 10 ** 5, "inf" if kind in ("walk", "edit1") else 1000])),
             "salt": draw(st.integers(0, 2 ** 16)),
-            "layout": draw(st.sampled_from([None, None, None, "F", "strided", "offset", "int32"]))}
+            "layout": draw(st.sampled_from([None, None, None, "F", "strided", "offset", "int32"])),
+            "np_start": draw(st.sampled_from([False, False, True]))}
 
 
 def evaluate(case):
@@ -88,7 +89,7 @@ def evaluate(case):
     labels = ["walk" if walk else "not_walk", "check:" + kind, "indel" if case["indel"] else "no_indel",
               "heap=%g" % heap, "k=%d" % k]
     result, lookups, _ = repairing.run_repair(rows, k, start, text, check=check, has_indel=case["indel"],
-                                              heap_size=heap, layout=case.get("layout"))
+                                              heap_size=heap, layout=case.get("layout"), np_start=bool(case.get("np_start")))
     if case.get("layout"):
         labels.append("layout:" + case["layout"])
     what = "repair_dna(%r, k=%d, start=%d, check=%r, has_indel=%s, heap_size=%g)" \
